@@ -247,6 +247,24 @@ example {cfg : Cfg (Sh Bool (Bool × Bool)) (Th eventObj.WOp (Bool × Bool))} (h
     {c : Nat} (hc : c < cfg.1.ncb) : chainFrom false (notes (cfg.1.cbs c).evs) = true :=
   C13_chain false false h hc
 
+/-- Set: `{1,2}`; a subscriber registers (initial note `+{1,2}`); `Replace({2,3})`; `Apply(+{2,4} -{3})`. -/
+def exSetThreads : List (Th (setObj [1, 2]).WOp Mut) :=
+  [{ script := [.sub false] }, { script := [.write (.replace [2, 3]), .write (.apply ([2, 4], [3]))] }]
+
+def exSetCfg := runSched (sys (setObj [1, 2])) (sh0 (setObj [1, 2]), exSetThreads)
+  (List.replicate 5 (0, 0) ++ List.replicate 14 (1, 0))
+
+theorem exSetCfg_reachable : Reachable (setObj [1, 2]) exSetCfg :=
+  ⟨(sh0 (setObj [1, 2]), exSetThreads), ⟨rfl, by simp [exSetThreads]⟩, runSched_reach _ _ _⟩
+
+/-- The hypotheses of `C13_set_fold` are satisfiable by a non-trivial quiescent state, and its
+conclusion can be observed on it. -/
+example :
+    (exSetCfg.1.cbs 0).evs = [.enter ([1, 2], []), .exit, .enter ([3], [1]), .exit, .enter ([4], [3]), .exit] ∧
+    exSetCfg.1.listed = [0] ∧ exSetCfg.1.st = [2, 4] ∧ foldNotes (notes (exSetCfg.1.cbs 0).evs) = [2, 4] ∧
+    exSetCfg.2.all (fun t => match t.pc with | .idle => true | _ => false) = true := by
+  decide
+
 /-- `C13_set_fold_step` on a concrete `Replace`: `{1,2}.Replace({2,3})` reports `+{3} -{1}`. -/
 example : (setObj []).upd [1, 2] (.replace [2, 3]) = .change [2, 3] ([3], [1]) := rfl
 
